@@ -482,7 +482,7 @@ fn check_overlap(c: &OverlapCase, ctx: &Ctx) -> Outcome {
     })();
     ctx.done(&dir);
     match r {
-        Err(Outcome::Fail(msg)) => Outcome::Fail(format!("k={k} with_ref={} samples={}: {msg}", c.with_ref, super::c07::show_samples(&samples))),
+        Err(Outcome::Fail(msg)) => Outcome::Fail(format!("k={k} with_ref={} samples={}: {msg}", c.with_ref, super::common::show_samples(&samples))),
         Err(o) => o,
         Ok(differs) => {
             if !ctx.replay {
